@@ -158,10 +158,10 @@ theorem rep2_had2 : Rep2 Mat.had2 hadM :=
   rep2_m2 _ _ _ _ _ (by simp [hadM]) (by simp [hadM]) (by simp [hadM]) (by rw [gqC_neg_one]; simp [hadM])
 theorem rep2_id2 : Rep2 Mat.id2 (1 : Matrix Bool Bool ℂ) :=
   rep2_m2 _ _ _ _ _ (by simp) (by simp) (by simp) (by simp)
-theorem rep2_ketbra00 : Rep2 (Mat.m2 1 0 0 0) (ketbra false false) :=
-  rep2_m2 _ _ _ _ _ (by simp [ketbra]) (by simp [ketbra]) (by simp [ketbra]) (by simp [ketbra])
-theorem rep2_ketbra01 : Rep2 (Mat.m2 0 1 0 0) (ketbra false true) :=
-  rep2_m2 _ _ _ _ _ (by simp [ketbra]) (by simp [ketbra]) (by simp [ketbra]) (by simp [ketbra])
+theorem rep2_ketBra00 : Rep2 (Mat.m2 1 0 0 0) (ketBra2 false false) :=
+  rep2_m2 _ _ _ _ _ (by simp [ketBra2]) (by simp [ketBra2]) (by simp [ketBra2]) (by simp [ketBra2])
+theorem rep2_ketBra01 : Rep2 (Mat.m2 0 1 0 0) (ketBra2 false true) :=
+  rep2_m2 _ _ _ _ _ (by simp [ketBra2]) (by simp [ketBra2]) (by simp [ketBra2]) (by simp [ketBra2])
 
 theorem b2n_digit (n : Nat) (b : Bits n) (q : Nat) (hq : q < n) :
     (idx n b / DM.pow2 (n - q - 1)) % 2 = b2n (bx b q) := idx_digit n b q hq
